@@ -404,9 +404,11 @@ class XPathContext:
         """Iterator for 'self' axis and '.' shortcut."""
         if self.item is not None:
             status = self.axis
-            self.axis = 'self'
-            yield self.item
-            self.axis = status
+            try:
+                self.axis = 'self'
+                yield self.item
+            finally:
+                self.axis = status  # also when the consumer stops early or raises
 
     def iter_attributes(self) -> Iterator[AttributeNode]:
         """Iterator for 'attribute' axis and '@' shortcut."""
@@ -414,18 +416,21 @@ class XPathContext:
 
         if isinstance(self.item, AttributeNode):
             status = self.axis
-            self.axis = 'attribute'
-            yield self.item
-            self.axis = status
+            try:
+                self.axis = 'attribute'
+                yield self.item
+            finally:
+                self.axis = status  # also when the consumer stops early or raises
             return
         elif isinstance(self.item, ElementNode):
             status = self.item, self.axis
-            self.axis = 'attribute'
+            try:
+                self.axis = 'attribute'
 
-            for self.item in self.item.attributes:
-                yield self.item
-
-            self.item, self.axis = status
+                for self.item in self.item.attributes:
+                    yield self.item
+            finally:
+                self.item, self.axis = status  # also when the consumer stops early or raises
 
     def iter_children_or_self(self) -> Iterator[ta.ItemType]:
         """Iterator for 'child' forward axis and '/' step."""
@@ -434,16 +439,17 @@ class XPathContext:
                 yield self.item
             elif isinstance(self.item, (ElementNode, DocumentNode)):
                 _status = self.item, self.axis
-                self.axis = 'child'
+                try:
+                    self.axis = 'child'
 
-                if self.item is self.document and self.root is not self.document:
-                    if self.root is not None:
-                        yield self.root
-                else:
-                    for self.item in self.item:
-                        yield self.item
-
-                self.item, self.axis = _status
+                    if self.item is self.document and self.root is not self.document:
+                        if self.root is not None:
+                            yield self.root
+                    else:
+                        for self.item in self.item:
+                            yield self.item
+                finally:
+                    self.item, self.axis = _status  # also when the consumer stops early or raises
 
     def iter_matching_nodes(self, name: str, default_namespace: Optional[str] = None) \
             -> Iterator[Union[AttributeNode, ElementNode]]:
@@ -458,18 +464,19 @@ class XPathContext:
                     yield self.item
         elif isinstance(self.item, (ElementNode, DocumentNode)):
             _status = self.item, self.axis
-            self.axis = 'child'
+            try:
+                self.axis = 'child'
 
-            if self.item is self.document and isinstance(self.root, ElementNode):
-                if self.root.match_name(name, default_namespace):
-                    yield self.root
-            else:
-                for self.item in self.item:
-                    if self.item.match_name(name, default_namespace):
-                        assert isinstance(self.item, ElementNode)
-                        yield self.item
-
-            self.item, self.axis = _status
+                if self.item is self.document and isinstance(self.root, ElementNode):
+                    if self.root.match_name(name, default_namespace):
+                        yield self.root
+                else:
+                    for self.item in self.item:
+                        if self.item.match_name(name, default_namespace):
+                            assert isinstance(self.item, ElementNode)
+                            yield self.item
+            finally:
+                self.item, self.axis = _status  # also when the consumer stops early or raises
 
     def iter_parent(self) -> Iterator[ta.RootNodeType]:
         """Iterator for 'parent' reverse axis and '..' shortcut."""
@@ -479,12 +486,13 @@ class XPathContext:
             if self.document is not None or self.item is not self.root:
                 if self.item.parent is not None:
                     status = self.item, self.axis
-                    self.axis = 'parent'
+                    try:
+                        self.axis = 'parent'
 
-                    self.item = self.item.parent
-                    yield self.item
-
-                    self.item, self.axis = status
+                        self.item = self.item.parent
+                        yield self.item
+                    finally:
+                        self.item, self.axis = status  # also when the consumer stops early or raises
 
     def iter_siblings(self, axis: str | None = None) -> Iterator[ta.ChildNodeType]:
         """
@@ -499,24 +507,25 @@ class XPathContext:
                 if item.parent is not None and \
                         not isinstance(item, (AttributeNode, NamespaceNode)):
                     status = self.item, self.axis
-                    self.axis = axis or 'following-sibling'
+                    try:
+                        self.axis = axis or 'following-sibling'
 
-                    if axis == 'preceding-sibling':
-                        for child in item.parent:  # pragma: no cover
-                            if child is item:
-                                break
-                            self.item = child
-                            yield child
-                    else:
-                        follows = False
-                        for child in item.parent:
-                            if follows:
+                        if axis == 'preceding-sibling':
+                            for child in item.parent:  # pragma: no cover
+                                if child is item:
+                                    break
                                 self.item = child
                                 yield child
-                            elif child is item:
-                                follows = True
-
-                    self.item, self.axis = status
+                        else:
+                            follows = False
+                            for child in item.parent:
+                                if follows:
+                                    self.item = child
+                                    yield child
+                                elif child is item:
+                                    follows = True
+                    finally:
+                        self.item, self.axis = status  # also when the consumer stops early or raises
 
     def iter_descendants(self, axis: Optional[str] = None) -> Iterator[Union[None, XPathNode]]:
         """
@@ -526,12 +535,13 @@ class XPathContext:
         """
         if isinstance(self.item, (DocumentNode, ElementNode)):
             status = self.item, self.axis
-            self.axis = axis
+            try:
+                self.axis = axis
 
-            for self.item in self.item.iter_descendants(with_self=axis != 'descendant'):
-                yield self.item
-
-            self.item, self.axis = status
+                for self.item in self.item.iter_descendants(with_self=axis != 'descendant'):
+                    yield self.item
+            finally:
+                self.item, self.axis = status  # also when the consumer stops early or raises
 
         elif axis != 'descendant' and isinstance(self.item, XPathNode):
             self.axis, axis = axis, self.axis
@@ -546,24 +556,25 @@ class XPathContext:
         """
         if isinstance(self.item, XPathNode):
             status = self.item, self.axis
-            self.axis = axis or 'ancestor'
+            try:
+                self.axis = axis or 'ancestor'
 
-            ancestors: list[XPathNode] = []
-            if axis == 'ancestor-or-self':
-                ancestors.append(self.item)
+                ancestors: list[XPathNode] = []
+                if axis == 'ancestor-or-self':
+                    ancestors.append(self.item)
 
-            if self.document is not None or self.item is not self.root:
-                parent = self.item.parent
-                while parent is not None:
-                    ancestors.append(parent)
-                    if parent is self.root and self.document is None:
-                        break
-                    parent = parent.parent
+                if self.document is not None or self.item is not self.root:
+                    parent = self.item.parent
+                    while parent is not None:
+                        ancestors.append(parent)
+                        if parent is self.root and self.document is None:
+                            break
+                        parent = parent.parent
 
-            for self.item in reversed(ancestors):
-                yield self.item
-
-            self.item, self.axis = status
+                for self.item in reversed(ancestors):
+                    yield self.item
+            finally:
+                self.item, self.axis = status  # also when the consumer stops early or raises
 
     def iter_preceding(self) -> Iterator[Union[DocumentNode, ta.ChildNodeType]]:
         """Iterator for 'preceding' reverse axis."""
@@ -576,46 +587,48 @@ class XPathContext:
 
                 if (root := item.parent) is not None:
                     status = self.item, self.axis
-                    self.axis = 'preceding'
-                    ancestors = {root}
-                    if isinstance(item, (AttributeNode, NamespaceNode)):
-                        item = root  # the tree walk below stops at the owner element
+                    try:
+                        self.axis = 'preceding'
+                        ancestors = {root}
+                        if isinstance(item, (AttributeNode, NamespaceNode)):
+                            item = root  # the tree walk below stops at the owner element
 
-                    while root.parent is not None:
-                        if root is self.root and self.document is None:
-                            break
-                        root = root.parent
-                        ancestors.add(root)
+                        while root.parent is not None:
+                            if root is self.root and self.document is None:
+                                break
+                            root = root.parent
+                            ancestors.add(root)
 
-                    for self.item in root.iter_descendants():
-                        if self.item is item:
-                            break
-                        if self.item not in ancestors:
-                            yield self.item
-
-                    self.item, self.axis = status
+                        for self.item in root.iter_descendants():
+                            if self.item is item:
+                                break
+                            if self.item not in ancestors:
+                                yield self.item
+                    finally:
+                        self.item, self.axis = status  # also when the consumer stops early or raises
 
     def iter_followings(self) -> Iterator[ta.ChildNodeType]:
         """Iterator for 'following' forward axis."""
         if isinstance(self.item, XPathNode) and \
                 not isinstance(self.item, (AttributeNode, NamespaceNode, DocumentNode)):
             status = self.item, self.axis
-            self.axis = 'following'
+            try:
+                self.axis = 'following'
 
-            descendants = set(self.item.iter_descendants()) \
-                if isinstance(self.item, ElementNode) else set()
-            position = self.item.position
+                descendants = set(self.item.iter_descendants()) \
+                    if isinstance(self.item, ElementNode) else set()
+                position = self.item.position
 
-            root = self.item
-            while root.parent is not None and root is not self.root:
-                root = root.parent
+                root = self.item
+                while root.parent is not None and root is not self.root:
+                    root = root.parent
 
-            for item in root.iter_descendants(with_self=False):
-                if position < item.position and item not in descendants:
-                    self.item = item
-                    yield item
-
-            self.item, self.axis = status
+                for item in root.iter_descendants(with_self=False):
+                    if position < item.position and item not in descendants:
+                        self.item = item
+                        yield item
+            finally:
+                self.item, self.axis = status  # also when the consumer stops early or raises
 
 
 class XPathSchemaContext(XPathContext):
@@ -661,17 +674,18 @@ class XPathSchemaContext(XPathContext):
 
         elif isinstance(self.item, ElementNode):
             _status = self.item, self.axis
-            self.axis = 'child'
+            try:
+                self.axis = 'child'
 
-            for self.item in self.item:
-                if self.item.match_name(name, default_namespace):
-                    if not self.item.name:
-                        for element_node in self.root:
-                            if element_node.match_name(name, default_namespace):
-                                self.item = element_node
-                                break
+                for self.item in self.item:
+                    if self.item.match_name(name, default_namespace):
+                        if not self.item.name:
+                            for element_node in self.root:
+                                if element_node.match_name(name, default_namespace):
+                                    self.item = element_node
+                                    break
 
-                    assert isinstance(self.item, ElementNode)
-                    yield self.item
-
-            self.item, self.axis = _status
+                        assert isinstance(self.item, ElementNode)
+                        yield self.item
+            finally:
+                self.item, self.axis = _status  # also when the consumer stops early or raises
